@@ -210,6 +210,34 @@ def c03(tier, seed):
     ]
 
 
+def reify_stages(inv, refute):
+    st = [MC("Gen_Reify", dict(Groups="={}"), invariants=inv, label="MC_Reify/ideal")]
+    for dev, i in refute:
+        st.append(MC("Gen_Reify", dict(Groups='={{"%s"}}' % dev), invariants=i, expect_violation=True,
+                     label="MC_Reify/refute-" + dev))
+    st.append(GEN("Gen_Reify", {}, "reify", label="Gen_Reify/types-x-validators-x-configs", min_cases=20000))
+    return st
+
+
+def c04(tier, seed):
+    return reify_stages(["OkIsValid"], [("PtrDefaultSkipsRange", ["OkIsValid"])])
+
+
+def c13(tier, seed):
+    return reify_stages(["Frame"], [])
+
+
+def c14(tier, seed):
+    return reify_stages(["ErrNamesSetting"], [("DefaultErrPathNotNested", ["ErrNamesSetting"]), ("MapElemUnaddressable", ["ErrNamesSetting"])])
+
+
+def c06(tier, seed):
+    return [
+        MC("Gen_Pack", dict(Groups="={}"), invariants=["Identity", "PackOK"], label="MC_Pack/identity"),
+        GEN("Gen_Pack", {}, "pack", label="Gen_Pack/struct-types-x-values", min_cases=30000),
+    ]
+
+
 ASSUME_COMMON = [
     "the public-API observation (Unpack into map and slice, canonicalised) reads the abstract state faithfully",
     "TLC, the JVM, the Go toolchain and runtime",
@@ -235,7 +263,23 @@ VAR_RULE = ("Gen_VarExp: every assignment of expression shapes (literal, ${x}, r
             "Has, CountField, Child for six names, Unpack of the whole config, FlattenedKeys and CompareConfigs - every world in a "
             "crash-isolated child process. non-trivial: every world; distinct by world")
 
+REIFY_RULE = ("Gen_Reify: target struct{G int; F T (validate:v); H int} built with reflect.StructOf, T in {int, *int, In, *In, []int, []In, "
+              "map[string]int, map[string]In} (In{X int min=2; Y int}), v in {none, nonzero, positive, min=2, max=5, required}, 2-4 pre-filled "
+              "values per type, 21 configuration shapes for f (absent, nil, ints, unparsable text, objects, lists, nested objects, failing "
+              "elements) x 3x3 shapes for g/h (incl. a failing one after F succeeded) = 29 484 cases; compared: outcome class, every field "
+              "value incl. nil-vs-empty, the dotted path quoted in the error, ucfg.Error with Reason and Class, target untouched on error. "
+              "non-trivial: every case; distinct by (type, validator, pre-fill, config)")
+
 CHECKS = {
+    "C04": dict(stages=c04, family="reify", rule=REIFY_RULE, assumptions=ASSUME_COMMON),
+    "C13": dict(stages=c13, family="reify", rule=REIFY_RULE, assumptions=ASSUME_COMMON),
+    "C14": dict(stages=c14, family="reify", rule=REIFY_RULE, assumptions=ASSUME_COMMON),
+    "C06": dict(stages=c06, family="pack",
+                rule="Gen_Pack: two-field structs over 15 field types (7 primitive kinds incl. Duration, *int64, *struct with a dotted tag, "
+                     "slices, fixed array, maps of strings and of structs, nested struct) x tags {default, renamed, dotted, inline, ignore} x "
+                     "extreme values (int64 min, uint64 max, 'a$b.c,d{e}', nil and empty collections) = 52 510 well-formed (type, value) pairs; "
+                     "compared: the packed tree and the round-tripped value (nil ~ empty). non-trivial: every pair; distinct by (type, value)",
+                assumptions=ASSUME_COMMON + ["generated struct types are well-formed (no two fields resolving to the same or prefix-related names)"]),
     "C03": dict(stages=c03, family="conv",
                 rule="Gen_Convert: 4 source kinds (Go int64, uint64, float64, decimal text) x (19 named boundaries x offsets -2..2 x "
                      "{whole, half} + NaN, +Inf, -Inf) x 13 targets (int8..int64, int, uint8..uint64, uint, float32/64, Duration), each through "
